@@ -1,0 +1,31 @@
+// Copyright (c) 2026 10X Genomics, Inc. All rights reserved.
+
+//go:build verif
+
+package core
+
+// VerifNewLocalRuntime builds a Runtime the way the package's own tests do
+// (no jobmanagers/config.json next to the executable is needed), so that the
+// external verification harness can call InvokePipeline and
+// ReattachToPipestance in-process.  No job is ever started by the harness.
+func VerifNewLocalRuntime() (*Runtime, error) {
+	rtOpts := DefaultRuntimeOptions()
+	rt := &Runtime{
+		Config: &rtOpts,
+	}
+	rt.jobConfig = &JobManagerJson{
+		JobSettings: &JobManagerSettings{
+			ThreadsPerJob: 1,
+			MemGBPerJob:   1,
+			ExtraVmemGB:   1,
+			ThreadEnvs:    []string{"GOMAXPROCS"},
+		},
+	}
+	var err error
+	rt.LocalJobManager, err = NewLocalJobManager(1, 1, 4, false, false, false, rt.jobConfig)
+	if err != nil {
+		return nil, err
+	}
+	rt.JobManager = rt.LocalJobManager
+	return rt, nil
+}
